@@ -17,6 +17,7 @@ import io
 import itertools
 import json
 import os
+import re
 import sys
 import types
 
@@ -31,6 +32,7 @@ DIALECTS = ['sqlite', 'duckdb', 'psql', 'bigquery', 'trino', 'presto',
 POSITIONS = ['fact', 'list', 'record', 'concat', 'default', 'user']
 FORMS = ['dq', 'sq', 'tq']
 MARKER = 'qzq'
+ISOLATION_BUDGET = 48    # extra programs per failing batch of strings
 
 
 def Cps(text):
@@ -109,14 +111,14 @@ def _UnitChunk(strings):
     lit, flag = {}, {}
     for d in DIALECTS:
       try:
-        lit[d] = Cps(EmitLiteral(d, s))
+        lit[d] = EmitLiteral(d, s)
       except Exception as e:  # pylint: disable=broad-except
-        lit[d] = Cps('<EXC %s>' % type(e).__name__)
+        lit[d] = '<EXC %s>' % type(e).__name__
       try:
-        flag[d] = Cps(_QL(d, {'f': s}).ConvertToSql(_FlagValueExpr('f')))
+        flag[d] = _QL(d, {'f': s}).ConvertToSql(_FlagValueExpr('f'))
       except Exception as e:  # pylint: disable=broad-except
-        flag[d] = Cps('<EXC %s>' % type(e).__name__)
-    recs.append({'k': 'unit', 'id': 'u:' + json.dumps(Cps(s)), 's': Cps(s),
+        flag[d] = '<EXC %s>' % type(e).__name__
+    recs.append({'k': 'unit', 'id': 'u:' + json.dumps(Cps(s)), 's': s,
                  'lit': lit, 'flag': flag})
   return recs
 
@@ -294,21 +296,47 @@ def _PipeTask(task):
   else:
     lits = [Render(form, s) for s in strings]
     values = [None] * len(strings)
-  res = _RunBatch(pos, ctx, lits, values)
-  if res is None:     # isolate: one string per program
-    res = []
-    for l, v in zip(lits, values):
-      res.extend(_RunBatch(pos, ctx, [l], [v]))
+  budget = [ISOLATION_BUDGET]
+
+  def Solve(ls, vs):
+    """Bisects a failing batch; when the budget of extra programs is spent
+    (massive failure) the remaining strings are recorded as 'batchfail'."""
+    r = _RunBatch(pos, ctx, ls, vs)
+    if r is not None:
+      return r
+    if budget[0] <= 0:
+      return [('batchfail', '', 'program failed as a whole; isolation budget '
+               'spent')] * len(ls)
+    budget[0] -= 2
+    h = len(ls) // 2
+    return Solve(ls[:h], vs[:h]) + Solve(ls[h:], vs[h:])
+  res = Solve(lits, values)
   recs = []
   for s, l, (st, got, detail) in zip(strings, lits, res):
     written = s if pos == 'user' else l
     rec = {'k': 'pipe', 'pos': pos, 'ctx': ctx, 'form': form,
-           'lit': Cps(written), 'status': st, 'got': Cps(got), '_key': s,
+           'lit': written, 'status': st, 'got': got, '_key': s,
            'id': 'p:%s:%s:%s:%s' % (pos, ctx, form, json.dumps(Cps(written)))}
     if detail:
       rec['detail'] = detail
     recs.append(rec)
   return recs
+
+
+_PARAM_FORM = re.compile(r'[$][{][^\n]*[}]')
+
+
+def _Batches(strings, pos, batch):
+  """Scheduling only: a program is rejected as a whole when one of its
+  literals has the parameter form ${..} with an undefined name (or, in the
+  record position, merely contains "${": known finding), so such strings get
+  a program of their own instead of spoiling a batch."""
+  alone = [s for s in strings if pos != 'user' and (
+      _PARAM_FORM.search(s) or (pos == 'record' and '${' in s))]
+  aset = set(alone)
+  together = [s for s in strings if s not in aset]
+  parts = [together[i:i + batch] for i in range(0, len(together), batch)]
+  return parts + [[s] for s in alone]
 
 
 def PipeTasks(strings, batch, forms_for=None):
@@ -322,8 +350,8 @@ def PipeTasks(strings, batch, forms_for=None):
         sel = [s for s in strings if form == 'argv' or CanWrite(form, s)]
         if forms_for is not None:
           sel = [s for s in sel if form in forms_for(s, pos, ctx)]
-        for i in range(0, len(sel), batch):
-          tasks.append((pos, ctx, form, sel[i:i + batch]))
+        for part in _Batches(sel, pos, batch):
+          tasks.append((pos, ctx, form, part))
   return tasks
 
 
@@ -420,8 +448,8 @@ def _SqlTask(task):
     st, sql, detail = res[0]
     written = s if pos == 'user' else l
     rec = {'k': 'sql', 'd': d, 'pos': pos, 'ctx': ctx, 'form': form,
-           'lit': Cps(written), 'ref': Cps(ref), 'at': at, 'len': ln,
-           'status': st, 'sql': Cps(sql), '_key': s,
+           'lit': written, 'ref': ref, 'at': at, 'len': ln,
+           'status': st, 'sql': sql, '_key': s,
            'id': 's:%s:%s:%s:%s:%s' % (d, pos, ctx, form,
                                        json.dumps(Cps(written)))}
     if detail:
@@ -440,8 +468,8 @@ def SqlTasks(strings, batch, dialects=None):
           form = 'argv' if pos == 'user' else PrimaryForm(s)
           by_form.setdefault(form, []).append(s)
         for form, sel in sorted(by_form.items()):
-          for i in range(0, len(sel), batch):
-            tasks.append((d, pos, ctx, form, sel[i:i + batch]))
+          for part in _Batches(sel, pos, batch):
+            tasks.append((d, pos, ctx, form, part))
   return tasks
 
 
@@ -471,6 +499,20 @@ def ParseJsonLine(line, marker):
     return None
 
 
+def ToWire(rec):
+  """Record -> the JSON object TLC reads: every text as code points (records
+  keep Python strings in memory: the thorough tier holds 350 k of them)."""
+  out = {}
+  for a, b in rec.items():
+    if a in ('_key', 'detail'):
+      continue
+    if a in ('s', 'lit', 'flag', 'got', 'ref', 'sql'):
+      b = ({d: Cps(x) for d, x in b.items()} if isinstance(b, dict)
+           else Cps(b))
+    out[a] = b
+  return out
+
+
 def Lemma(n, timeout=1500):
   """StrLitLemma over all strings up to length n.  Returns (TlcResult, carry)."""
   r = tlc.Run('StrLitLemma', cfg='StrLitLemma%d.cfg' % n, timeout=timeout,
@@ -492,7 +534,7 @@ def Validate(records, tag, nshards=None, timeout=3000):
     os.unlink(os.path.join(d, f))
   shards = [[] for _ in range(nshards)]
   for r in records:
-    key = Txt(r['s']) if r['k'] == 'unit' else r['_key']
+    key = r['s'] if r['k'] == 'unit' else r['_key']
     shards[ShardOf(key, nshards)].append(r)
   paths = []
   for k, part in enumerate(shards):
@@ -500,9 +542,7 @@ def Validate(records, tag, nshards=None, timeout=3000):
     with open(path, 'w') as f:
       f.write(json.dumps({'k': 'hdr', 'shard': k, 'nshards': nshards}) + '\n')
       for r in part:
-        f.write(json.dumps({a: b for a, b in r.items()
-                            if a not in ('_key', 'detail')},
-                           separators=(',', ':')) + '\n')
+        f.write(json.dumps(ToWire(r), separators=(',', ':')) + '\n')
     paths.append(path)
 
   def One(path):
